@@ -267,9 +267,12 @@ fn run_fields(plan: &Value, rec: &mut Rec) {
     };
     rec.sample(json!({"artifact": kind, "packet": jusize(plan, "pkt"), "tag": p.tag, "offsets": [jusize(plan,"from"), jusize(plan,"to")]}));
     for off in offs {
-        for (width, value) in [(1usize, 0xFFu32), (1, 0xFE), (2, 0xFFFF), (2, 0xFFF0), (4, 0xFFFF_FFFF), (4, 0x7FFF_FFFF), (4, 0x0100_0000), (4, 0x8000_0000)] {
+        // (width, value, filler): with filler, 3000 octets are appended to the packet body so that a field
+        // declaring megabytes is followed by more than 1 KiB of real data - still far less than declared
+        for (width, value, filler) in [(1usize, 0xFFu32, 0usize), (1, 0xFE, 0), (2, 0xFFFF, 0), (2, 0xFFF0, 0), (4, 0xFFFF_FFFF, 0), (4, 0x7FFF_FFFF, 0), (4, 0x0100_0000, 0), (4, 0x8000_0000, 0),
+            (4, 0x0100_0000, 3000), (4, 0x0400_0000, 3000), (2, 0xFFFF, 3000)] {
             if let Some(o) = only {
-                if jusize(o, "width") != width || ju64(o, "value") != value as u64 {
+                if jusize(o, "width") != width || ju64(o, "value") != value as u64 || jusize(o, "filler") != filler {
                     continue;
                 }
             }
@@ -281,6 +284,12 @@ fn run_fields(plan: &Value, rec: &mut Rec) {
             body[off..off + width].copy_from_slice(&be[4 - width..]);
             if body == p.body {
                 continue;
+            }
+            if filler > 0 {
+                if off > 120 {
+                    continue; // keep the cost of this variant down: length fields sit near the start
+                }
+                body.extend((0..filler).map(|i| (i * 31 + 7) as u8));
             }
             let mut out = Vec::new();
             for (i, q) in pk.iter().enumerate() {
@@ -296,10 +305,11 @@ fn run_fields(plan: &Value, rec: &mut Rec) {
             h.str(&plan.to_string());
             h.u64((off * 16 + width) as u64);
             h.u64(value as u64);
+            h.u64(filler as u64);
             rec.eval(h.0, true);
-            rec.count(&format!("fault:F-declare:field-{width}-octets"));
+            rec.count(&format!("fault:F-declare:field-{width}-octets{}", if filler > 0 { "+3000-supplied" } else { "" }));
             let mut vplan = plan.clone();
-            vplan["only"] = json!({"off": off, "width": width, "value": value});
+            vplan["only"] = json!({"off": off, "width": width, "value": value, "filler": filler});
             // SEIPDv2 chunk size octet: the documented stream buffer is 2 * (chunk + 16)
             let mut extra = if p.tag == 18 && off <= 3 { 2 * ((64u64 << 16) + 16) } else { 0 };
             if pk.iter().any(|q| q.tag == 8) {
